@@ -34,6 +34,8 @@ LAYOUTS = {
     '4col-wide': {'wl': [4.0, 4.4, 5.2], 'bw': [1.5, 1.2, 2.0]},
     'unsorted-3col': {'wl': [5.5, 3.4, 6.5, 4.0], 'bw': None},
     'unsorted-4col': {'wl': [4.5, 6.0, 3.5], 'bw': [0.4, 0.5, 0.3]},
+    # narrow range well inside all the others (an observation replaced by a wider one must not leave its range behind)
+    '3col-narrow': {'wl': [4.8, 5.0, 5.2], 'bw': None},
 }
 
 
